@@ -233,6 +233,8 @@ class World(object):
         att["done"] = True
         att["seq1"] = self.seq
         att["dTime"] = _c(integ.dTime)
+        sd = getattr(integ, "solver_dict", None) or {}
+        att["newton_ok"] = sd.get("newton_iteration_success")
 
     def solver_seam(self, orig, f, x0, a, kw):
         n = self.peer_count_only("solver")
